@@ -44,6 +44,14 @@ def _res(name, ok, line=0, note=''):
     return r
 
 
+def _shape(name, good, bad=False, line=0, note=''):
+    """good: the shape the argument needs is present; bad: a shape known to break the property is present; neither:
+    the code was restructured - undecided, never a violation."""
+    r = smt.shape(name, good, bad, line, note)
+    r.replay_fn = _witness
+    return r
+
+
 # ------------------------------------------------------------------------------------------------ escaping
 NUMERIC_TYPES = {'int', 'float', 'bool', 'Vec', 'FrozenVec', 'Angle', 'FrozenAngle', 'UVAxis', 'Vec4', 'builtins.int',
                  'builtins.float', 'builtins.bool'}
@@ -194,7 +202,7 @@ def static_fixup_keys(repo):
     src = ast.unparse(exp)
     out = []
     writer_ok = "replace{fixup.id:02}" in src
-    out.append(_res('fixup.writer_key_is_replace_plus_two_digit_padded_id', writer_ok, exp.lineno))
+    out.append(_shape('fixup.writer_key_is_replace_plus_two_digit_padded_id', writer_ok, False, exp.lineno))
     k = None
     for n in ast.walk(par):
         if isinstance(n, ast.If) and "name.startswith('replace')" in ast.unparse(n.test):
@@ -207,7 +215,8 @@ def static_fixup_keys(repo):
                             k = ast.literal_eval(sl.slice.lower)
                         except ValueError:
                             k = None
-    out.append(_res('fixup.reader_takes_everything_after_the_prefix', k == len('replace'), par.lineno, f'slice start {k!r}'))
+    out.append(_shape('fixup.reader_takes_everything_after_the_prefix', k == len('replace'), k is not None and k != len('replace'),
+                      par.lineno, f'slice start {k!r}'))
     if k is None or not writer_ok:
         return out
     # z3: for all id >= 0: to_int(substr("replace" + pad2(id), k)) == id
@@ -265,9 +274,9 @@ def static_disp_shapes(repo):
         table = [f'multiblend_color_{i}' for i in range(4)]
     for nm in table:
         need[nm] = 'VEC'
-    out.append(_res('disp.reader_arrays_found', {'alphas', 'distances', 'triangle_tags', 'normals', 'offsets',
-                                                 'offset_normals', 'multiblend'} <= set(need) and vec_width is not None,
-                    par.lineno, str(sorted(need))))
+    out.append(_shape('disp.reader_arrays_found', {'alphas', 'distances', 'triangle_tags', 'normals', 'offsets',
+                                                   'offset_normals', 'multiblend'} <= set(need) and vec_width is not None,
+                      False, par.lineno, str(sorted(need))))
     # --- writer: rowset arrays (name, member) and the two hand-written loops
     member_width = {'normal': 3, 'offset': 3, 'offset_norm': 3, 'distance': 1, 'alpha': 1, 'multi_blend': 4, 'multi_alpha': 4}
     written = {}
@@ -277,7 +286,7 @@ def static_disp_shapes(repo):
     # rowset writes `size` rows of `size` vertices
     rs = ast.unparse(rowset)
     rowset_ok = 'for y in range(size)' in rs and 'rows[size * y:size * (y + 1)]' in rs
-    out.append(_res('disp.rowset_writes_size_rows_of_size_vertices', rowset_ok, rowset.lineno))
+    out.append(_shape('disp.rowset_writes_size_rows_of_size_vertices', rowset_ok, False, rowset.lineno))
     problems = []
     for power in (1, 2, 3, 4):
         size = 2 ** power + 1
@@ -318,7 +327,8 @@ def static_disp_shapes(repo):
     out.append(_res('disp.triangle_tags_are_written_per_quad', not tt_problems, tt.lineno if tt else exp.lineno, str(tt_problems[:2])))
     # multiblend colours: 3 numbers per vertex also for the default
     src = ast.unparse(exp)
-    out.append(_res('disp.default_multiblend_colour_has_three_components', "else '1 1 1'" in src, exp.lineno))
+    out.append(_shape('disp.default_multiblend_colour_has_three_components', "else '1 1 1'" in src, "else '1')" in src or "else '1' " in src
+                      or "is not None else '1'\n" in src, exp.lineno))
     # everything inside dispinfo: the statement that closes dispinfo is the last write of the function
     writes = [n for n in ast.walk(exp) if isinstance(n, ast.Call) and isinstance(n.func, ast.Attribute) and n.func.attr == 'write']
     last_top = exp.body[-1]
@@ -359,7 +369,8 @@ def static_editor_keys(repo):
                         r.lineno, f'written but not read: {missing}'))
     # include_groups: world brushes carry group/visgroup ids
     ent = ast.unparse(mod.find('Entity.export'))
-    out.append(_res('keys.world_brushes_keep_their_group_ids', 'include_groups=_is_worldspawn' in ent))
+    out.append(_shape('keys.world_brushes_keep_their_group_ids', 'include_groups=_is_worldspawn' in ent,
+                      'include_groups=not _is_worldspawn' in ent))
     # set-valued ids are written sorted
     for cname in ('Solid.export', 'Entity.export'):
         fn = mod.find(cname)
